@@ -239,12 +239,18 @@ def rule_rx(R):
         end = rng[5][1] if rng[0] == "agg" and rng[4] == ["start", "end"] else None
         start = rng[5][0] if end is not None else None
         guard = []
+        from .. import panics as _panics
         for bb in rb.switches:
             si = rb.switch_info(bb)
-            sj = si["subject"]
-            if sj[0] == "bin" and sj[1] == "Le" and end is not None and same_shape(sj[2], end) and is_call(peel(sj[3]), "len") \
-                    and chain(peel(sj[3])[3][0])[1][-1:] == ["buffer"] and si["edges"].get(True) is not None:
-                guard.append((bb, si["edges"][True], si["edges"].get(False)))
+            cc = _panics.canon_cmp(si["subject"])
+            if cc is None or end is None:
+                continue
+            # the edge on which `end <= buffer.len()` holds, however the test is spelled (`end <= len`, `!(end > len)`, ..)
+            for lab in (True, False):
+                c2 = cc if lab else _panics.negate(cc)
+                if c2[0] == "<=" and c2[1] == _panics.show(peel(end)) and "len(" in c2[2] and "buffer" in c2[2] \
+                        and si["edges"].get(lab) is not None:
+                    guard.append((bb, si["edges"][lab], si["edges"].get(not lab)))
         okc = bool(guard) and rb.must_pass([0], [c.bb], via_edges=[(g[0], g[1]) for g in guard])[0]
         okc = okc and start is not None and chain(start)[1] == ["read_bytes"]
         # the false edge returns an error
